@@ -33,7 +33,7 @@ inductive Kind where
 deriving DecidableEq, Repr
 
 inductive Role where
-  | transient | perCall | sticky | config | cache | perCallObject | const | unclassified
+  | transient | perCall | sticky | config | cache | perCallObject | const | guarded | unclassified
 deriving DecidableEq, Repr
 
 inductive Act where
